@@ -16,11 +16,18 @@ CFG = {
             "cased letters of many scripts (all lower-case code points in the thorough tier) x 17 event shapes with the CasedPair hypotheses checked "
             "on Go's tables (hyp_ok / hyp_violated:*); ppaste: whole bracketed pastes (fixed + random payloads, inner markers) injected into a real "
             "host Vaxis, the posted events forwarded with the real Model.Update, bytes compared with the payload. "
+            "Round 3: child scripts are token lists of ANY sequences (mode sequences + other CSI/ESC by label, text, OSC, resizes; c/e tokens "
+            "checked with the real parser): noise (about 115 non-mode sequences x alone / after all modes enabled / before RIS / after RIS: ANSI SM/RM of the "
+            "private numbers, DECSTR, XTSAVE/XTRESTORE, DECSC/DECRC, movement, erase, SGR, requests, numbers beyond the 65535 clamp, 47/1047/1048), "
+            "full-screen sessions (start, work, clean exit / crash + RIS / restart), noise inside the random scripts; release-events / repeat-events "
+            "(every special key x 4 modifier sets, ASCII keys plain/Ctrl/Alt, other scripts, decoded kitty release reports). "
             "Non-trivial = something is written towards the child; distinct by op line.",
     "trusted_base": ["unicode.IsLower etc. are parameters of the model (structure Uni)",
                      "bytes -> sequences is the real ansi parser (C02); a lone ESC is resolved as the escape time-out does (C08)",
                      "decimal rendering of fmt.Sprintf(\"%d\") and UTF-8 encoding of %c / WriteRune are modelled at the code-point level",
-                     "the Go-body interpreter Model/GoInterp.lean and the go/ast translator extract/cmd/C09/gobody (validated against the implementation on every case)"],
+                     "the Go-body interpreter Model/GoInterp.lean and the go/ast translator extract/cmd/C09/gobody (validated against the implementation on every case)",
+                     "the emulator model Model/Emu.lean (C05: transcribed bodies tied by C05's own body/correspondence checks) for Props/C13Child; "
+                     "its dispatch and mode tables are regenerated (Gen/TermModes, extractor C05) and proved equal to C13's Gen/TermInputModes for every number"],
     "level_text": "Forwarded keys/paste/mouse: Props/C13 theorems proved over the model of widgets/term/key.go, mouse.go and the "
                   "forwarding arms of Update, tied to the source by Gen/TermKeys.lean, Gen/Keys.lean, Gen/Mouse.lean (tables), Gen/TermBody.lean (the three function bodies as "
                   "decision-structure terms, regenerated and interpreted; Props/C13Body proves interpreted body = model for all inputs) and by correspondence.",
@@ -33,7 +40,14 @@ CFG = {
                   "widgets/term on this run, executed by Model/GoInterp over the regenerated tables, equal the model for every key / mouse event / mode state / unicode oracle; "
                   "the driver also runs them on every case. Validated by correspondence only: the meaning the interpreter gives to the Go statement subset "
                   "(fmt.Sprintf %d/%c, bytes.Buffer, map index, switch) and the go/ast translator. "
-                  "Modelled not verified: parser, unicode tables, pty write.",
+                  "Round 3, Props/C13Child (modes selected by the child's own stream, through the emulator model Model/Emu of C05): child_step_conform_all "
+                  "(DECSET/DECRST with any parameter list over Z, DECKPAM/DECKPNM/RIS = the standard meaning, from every state), dispatch_is_standard (only CSI ?h / ?l, ESC = > c "
+                  "select input modes, any label / parameters, incl. the 65535 clamp), emu_step_selects_modes (every Emu operation, any state), child_stream_selects_modes, "
+                  "forwarded_encoding_is_selected (Emu.runOps then Update: the bytes are the encoder's output for the modes the stream last selected), "
+                  "ris_restores_input_defaults / after_ris_nothing_enabled, cursor_keys_/paste_/mouse_gated_ follow_child_stream (compositions with cursor_mode_selects, "
+                  "paste_gated, mouse_gated). release_not_forwarded (F313 fixed b3daf4e: key releases write nothing). The oracle on the real code uses Spec.specModesOfStream on token scripts "
+                  "fed through the real parser and Model.update. Observations, not defects of the property: DECSTR / XTSAVE / XTRESTORE unimplemented (select nothing), Alt + text production "
+                  "is sent as ESC + key. Modelled not verified: parser, unicode tables, pty write.",
     "assumptions": ["Key.Text and the strings written are valid UTF-8"],
     "timeout": 900,
 }
